@@ -45,6 +45,13 @@ def _env_is(name, x):
     return c is None or x == c
 
 
+def _active(fid):
+    """is the known finding `fid` excluded from the search?  (R.known's switch: known_findings.json lists it with
+    status 'known' and VP_NO_EXCLUDE is unset)  The _kf_* predicates need a parse, so they are only evaluated
+    when the switch is on:  `if _active(id) and _kf_x(...): return False`  ==  `pre: not R.known(id, _kf_x(...))`"""
+    return _HARDWIRED or R.known_active(fid)
+
+
 def _no_delims(t):
     """quick tier (VP_NODELIM=1): the symbolic text holds none of ',', '(' , ')' - the surface structure of the
     annotation is then the template's (structure-changing texts are C02's subject; thorough keeps them)"""
@@ -102,7 +109,7 @@ def _acc_pre(name, sfx, shape):
         return False
     if _c03_hash_term(flat(name)):
         return False
-    if _HARDWIRED or R.known_active("C09-two-placeholders-accepted"):
+    if _active("C09-two-placeholders-accepted"):
         if _kf_two_placeholders(name, sfx, shape):
             return False
     return True
@@ -302,10 +309,10 @@ def _alg_pre(nm, v, form, pos, n, o1, o2, o3):
     ops = _ops(n, o1, o2, o3)
     if EXPAND in ops:
         uses = D.uses(_annotation(nm, v, form, pos), _REF_DEFS)
-        if _HARDWIRED or R.known_active("C09-double-expand-cycle"):
+        if _active("C09-double-expand-cycle"):
             if _kf_double_expand(uses, ops):
                 return False
-        if _HARDWIRED or R.known_active("C09-shrunk-def-expand-not-reexpanded"):
+        if _active("C09-shrunk-def-expand-not-reexpanded"):
             if _kf_no_reexpand(uses, ops):
                 return False
     return True
@@ -421,10 +428,10 @@ def _dx_pre(nm, v, w, shape):
     vd = D.defexpand_verdicts(_expand_text(nm, v, w, shape), _REF_DEFS)
     if vd is None:
         return False                     # v / w changed the structure: not a Def-expand group any more
-    if _HARDWIRED or R.known_active("C09-def-expand-order-sensitive"):
+    if _active("C09-def-expand-order-sensitive"):
         if _kf_defexpand_order(vd):
             return False
-    if _HARDWIRED or R.known_active("C09-def-expand-unplugged-placeholder"):
+    if _active("C09-def-expand-unplugged-placeholder"):
         if _kf_unplugged_placeholder(vd):
             return False
     return True
